@@ -54,7 +54,7 @@ pub fn c03(tier: &str, seed: u64, meta: &str) -> Report {
     let thorough = tier == "thorough";
     let pr = &p;
     let punct: Vec<String> = std::iter::once(String::new()).chain(PUNCT.chars().map(|c| c.to_string())).collect();
-    let words = ["5", "75", "k", "kotha", "a1", "Rr", "OI", "x9z", "bangla", "0", "amar", "T", "ngo", "rri", "aZ7"];
+    let words = ["5", "75", "k", "kotha", "a1", "Rr", "OI", "x9z", "bangla", "0", "amar", "T", "ngo", "rri", "aZ7", "kt``", "hoThat``", "k`"];
     let n_pairs = (punct.len() * punct.len()) as u64;
     let n_a = n_pairs * words.len() as u64;
     let n_a2: u64 = if thorough { 60_000 } else { 6_000 };
@@ -348,7 +348,9 @@ pub fn c05(tier: &str, seed: u64, meta: &str) -> Report {
     let workers: u64 = 16;
     let per: usize = if thorough { 2500 } else { 640 };
     let pr = &p;
-    let sels: Map = vec![("ami".into(), "আমই".into()), ("sesh".into(), "শেষ".into()), ("desh".into(), "দেস".into()), ("kotha".into(), "কোথা".into())];
+    // two of the learned words are bases of the same texts (amar + ei / amare + i): which one decides must not depend on the context
+    let sels: Map = vec![("ami".into(), "আমই".into()), ("sesh".into(), "শেষ".into()), ("desh".into(), "দেস".into()), ("kotha".into(), "কোথা".into()),
+        ("amar".into(), "আম্মার".into()), ("amare".into(), "অ্যাম্বারে".into())];
     let uac: Map = vec![("jhal".into(), "bhalO".into()), ("tst".into(), "TesT".into())];
     let (sels, uac) = (&sels, &uac);
     let mut rep = par_items(workers, |_| Worker2::new(pr.data.clone()), |w, i, rep| {
@@ -358,7 +360,7 @@ pub fn c05(tier: &str, seed: u64, meta: &str) -> Report {
         // a second context in the same thread, without a database directory: it must not influence the first
         let mut other = if i % 2 == 0 { psession(w, bits, false, None, None, "c05o").ok() } else { None };
         // a pool with many repeats of stems so that prefixes, suffix forms and case variants meet in the memo
-        let stems = ["ami", "desh", "sesh", "kotha", "bidyut", "rong", "form", "as", "koTha", "neT", "net", "jhal", "tst", "amra", "bhasha", "boi", "manush", "kori", "bol", "din"];
+        let stems = ["ami", "desh", "sesh", "kotha", "bidyut", "rong", "form", "as", "koTha", "neT", "net", "jhal", "tst", "amra", "bhasha", "boi", "manush", "kori", "bol", "din", "amare", "amar"];
         let mut cur_sels: Map = { let mut m = sels.clone(); m.sort(); m };
         // a quarter of the workers re-configure the warm context twice with a different database directory
         // (same layout, same options): the tables of a context are those it loaded when it was built, and the
@@ -381,6 +383,7 @@ pub fn c05(tier: &str, seed: u64, meta: &str) -> Report {
                 8 => format!("\"{}\"", rng.pick(&stems)),
                 _ => word_pool(pr, &mut rng, 1).pop().unwrap_or_else(|| "ami".into()),
             };
+            let t: String = if n % 37 == 5 { "amarei".into() } else if n % 37 == 6 { "(amarei)".into() } else { t };
             if !pr.typeable(&t) || t.is_empty() { continue; }
             let last_char = t.chars().last().unwrap();
             let sel = if ECHO.contains(last_char) { rng.below(3) as u8 } else { 0 };
@@ -388,7 +391,9 @@ pub fn c05(tier: &str, seed: u64, meta: &str) -> Report {
             if let Some(o) = other.as_mut() {
                 if rng.chance(1, 3) { let mut e = pr.key_events(&t, 0); e.push(SEv::Finish); feed(w, o, &e, rep, "C05"); other_first = true; }
             }
-            let path = edit_path(pr, &mut rng, &t, sel);
+            let mut path = edit_path(pr, &mut rng, &t, sel);
+            // the keypad has keys of its own for "." and "-": the same character, the same text
+            if rng.chance(1, 2) { if let Some(SEv::Key(k, m, sl)) = path.last().cloned() { let twin = if Some(&k) == pr.keys.get(&'.') { Some(0x0053u16) } else if Some(&k) == pr.keys.get(&'-') { Some(0x004A) } else { None }; if let Some(t2) = twin { let l = path.len(); path[l - 1] = SEv::Key(t2, m, sl); } } }
             let ws = feed(w, &mut warm, &path, rep, "C05");
             let wlast = ws.last().unwrap().imp.clone();
             // the learned selections in force while this text was composed
@@ -489,9 +494,14 @@ pub fn c06(tier: &str, seed: u64, meta: &str) -> Report {
             if !terminated { rep.fail(json!({"what": "repeated backspaces do not reach the idle state", "session": used.describe()})); return; }
         } else {
             let s = feed(w, used, &tevs, rep, "C06").pop().unwrap();
-            // ctrl-backspace terminates only a non-empty composition
+            // ctrl-backspace ends whatever is being composed (and does nothing when idle)
             terminated = term != 2 || matches!(&s.out, Out::Single { text, .. } if text.is_empty());
-            let _ = composing;
+            if term == 2 && composing && !terminated {
+                rep.fail(json!({"what": "ctrl-backspace during a composition does not return an empty suggestion (the session is not ended)", "method": if phonetic { "phonetic" } else { "fixed (synthetic layout)" },
+                    "option_bits": bits, "returned": explain(&s.imp), "initial": used.initial, "events_of_this_case": used.history[start..].iter().map(|e| e.json()).collect::<Vec<_>>()}));
+                feed(w, used, &[SEv::Finish], rep, "C06");
+                return;
+            }
         }
         if !terminated { return; }
         rep.evaluations += 1;
@@ -585,6 +595,8 @@ pub fn c08(tier: &str, seed: u64, meta: &str) -> Report {
     // (aa i ii u uu ri e oi o ou), independent vowels, a consonant, an auto-correct key
     let bases_q = ["bidyut", "rong", "ami", "desh", "ma", "hothat", "kkhet", "form", "bou", "nodi", "bondhu", "bodhu", "matri", "ke", "koi", "alo", "keu", "boi", "dao"];
     let mut bases: Vec<String> = bases_q.iter().map(|s| s.to_string()).collect();
+    // a bundled auto-correct row that maps a text to itself (its entry is a direct candidate like any other)
+    if let Some(k) = p.ac_keys.iter().find(|k| k.chars().all(|c| c.is_ascii_alphanumeric()) && k.len() >= 3 && p.data.autocorrect.get(*k) == Some(*k) && p.typeable(k)) { bases.push(k.clone()); }
     if thorough {
         let mut rng = Rng::new(seed);
         for _ in 0..40 { let k = rng.pick(&p.ac_keys).clone(); if p.typeable(&k) && k.chars().all(|c| c.is_ascii_lowercase()) { bases.push(k); } }
@@ -747,10 +759,27 @@ pub fn c09(tier: &str, seed: u64, meta: &str) -> Report {
         let text = format!("{}{}{}", l, word, r);
         let fail = |rep: &mut Report, s: &Session, what: &str, extra: Value| rep.fail(json!({"what": what, "word": word, "typed": text, "option_bits": bits, "details": extra, "session": s.describe()}));
         // 1. type, choose a candidate other than the preselected one, commit
-        let st = feed_frontend(w, &mut s, pr, &text, rep, "C09");
-        let (_, list, sel) = match last_full(&st) { Some(x) => x, None => return };
-        if list.len() < 2 { feed(w, &mut s, &[SEv::Finish], rep, "C09"); return; }
-        let choice = { let mut c = rng.below(list.len()); if c == sel { c = (c + 1) % list.len(); } c };
+        // the candidate is highlighted either after the whole text was typed, or - when the text ends in one of the
+        // punctuation keys that keep the highlighted index - before that last key, which then carries the index
+        let ends_in_echo = text.chars().last().map(|c| ECHO.contains(c)).unwrap_or(false);
+        let (list, choice): (Vec<String>, usize) = if ends_in_echo && text.chars().count() > 1 && rng.chance(1, 2) {
+            let head: String = { let cs: Vec<char> = text.chars().collect(); cs[..cs.len() - 1].iter().collect() };
+            let st0 = feed_frontend(w, &mut s, pr, &head, rep, "C09");
+            let l0 = match last_full(&st0) { Some(x) => x.1, None => return };
+            if l0.len() < 2 { feed(w, &mut s, &[SEv::Finish], rep, "C09"); return; }
+            let c = 1 + rng.below(l0.len() - 1);
+            let st1 = feed(w, &mut s, &[SEv::Key(pr.keys[&text.chars().last().unwrap()], 0, c as u8)], rep, "C09");
+            match last_full(&st1) {
+                Some((_, l1, s1)) if c < l1.len() && s1 == c => (l1, c),
+                _ => { feed(w, &mut s, &[SEv::Finish], rep, "C09"); return; }
+            }
+        } else {
+            let st = feed_frontend(w, &mut s, pr, &text, rep, "C09");
+            let (_, list, sel) = match last_full(&st) { Some(x) => x, None => return };
+            if list.len() < 2 { feed(w, &mut s, &[SEv::Finish], rep, "C09"); return; }
+            let choice = { let mut c = rng.below(list.len()); if c == sel { c = (c + 1) % list.len(); } c };
+            (list, choice)
+        };
         let chosen = list[choice].clone();
         if chosen == text && !(l.is_empty() && r.is_empty()) {
             // known finding: the raw English candidate of a wrapped text is stored with its wrapping and never found again
